@@ -1,6 +1,7 @@
 (* Shared helpers for the drivers: nat <-> int, tokenising, printing. *)
 module L = Stdlib.List
 module S = Stdlib.String
+module String = Stdlib.String   (* the extracted Coq String module shadows Stdlib's; s.[i] needs this one *)
 
 let rec nat_of_int (n : int) : Datatypes.nat =
   if n <= 0 then Datatypes.O else Datatypes.S (nat_of_int (n - 1))
